@@ -455,6 +455,120 @@ class ProgGen:
 		self.count(f'generic-chain:{arg if arg != base else "class"}:{len(chain) - 1}')
 		return out, body
 
+	def alias_block(self) -> tuple[list[str], list[str]]:
+		"""Type aliases (`P: TypeAlias = tuple[int, str]`, of lists, dicts, of other aliases) wherever a structural type can stand: as the
+		ELEMENT / value type of iterated collections, as a parameter type, nested in another alias. The aliased tuples are destructured
+		into two targets by for statements, list / dict comprehensions and plain assignments (the control), indexed and iterated; every
+		target is used again (ResolveUnknown.resolve_right_to_left unwraps the alias before it takes the target's position,
+		processors/resolve_unknown.py:100-112; on_for_in / on_indexer actualize it).
+		Returns (definitions, body lines of the entry function)."""
+		rng = self.rng
+		out: list[str] = []
+		lines: list[str] = []
+		n = self.fresh('')
+		t1, t2 = rng.sample(['int', 'str', 'float', 'bool'], 2)
+		lit = {'int': ['1', '7'], 'str': ['"x"', '"yz"'], 'float': ['0.5', '2.5'], 'bool': ['True', 'False']}
+		P, L, D, PP, LP = f'P{n}', f'L{n}', f'D{n}', f'PP{n}', f'LP{n}'
+		out += ['', '', f'{P}: TypeAlias = tuple[{t1}, {t2}]', f'{L}: TypeAlias = list[{t1}]', f'{D}: TypeAlias = dict[str, {t2}]',
+			f'{PP}: TypeAlias = tuple[{P}, {t1}]', f'{LP}: TypeAlias = list[{P}]']
+		fn = self.fresh('al')
+
+		def decl(expr: str) -> str:
+			v = self.fresh('v')
+			lines.append(f'\t{v} = {expr}')
+			return v
+
+		def loop(targets: str, src: str, uses: list[str]) -> None:
+			lines.append(f'\tfor {targets} in {src}:')
+			for u in uses:
+				lines.append(f'\t\t{self.fresh("v")} = {u}')
+		forms = rng.sample(['for-ps', 'comp-ps', 'dictcomp-ps', 'assign-ps', 'for-lp', 'for-pps', 'for-ls', 'for-ds', 'for-dp', 'assign-one', 'comp-dp', 'index', 'for-plain'], rng.randint(5, 8))
+		if not any(f in forms for f in ('for-ps', 'comp-ps', 'dictcomp-ps', 'for-lp')):
+			forms.append(rng.choice(['for-ps', 'comp-ps', 'for-lp']))
+		for f in forms:
+			a, b = self.fresh('x'), self.fresh('y')
+			if f == 'for-ps':
+				loop(f'{a}, {b}', 'ps', [a, b, f'[{b}, {b}]'])
+			elif f == 'comp-ps':
+				decl(rng.choice([f'[{b} for {a}, {b} in ps]', f'[{a} for {a}, {b} in ps]', f'[({b}, {a}) for {a}, {b} in ps]']))
+			elif f == 'dictcomp-ps':
+				decl(f'{{{b}: {a} for {a}, {b} in ps}}' if t2 != 'float' else f'{{{a}: {b} for {a}, {b} in ps}}')
+			elif f == 'assign-ps':
+				lines.append(f'\t{a}, {b} = ps[0]')
+				decl(a)
+				decl(b)
+			elif f == 'for-lp':
+				loop(f'{a}, {b}', 'lp', [b, a])
+			elif f == 'for-pps':
+				loop(f'{a}, {b}', 'pps', [f'{a}[1]', f'{a}[0]', b])
+			elif f == 'for-ls':
+				loop(a, 'ls', [f'{a}[0]', f'[z for z in {a}]'])
+			elif f == 'for-ds':
+				loop(a, 'ds', [f'{a}["k"]'])
+			elif f == 'for-dp':
+				loop(f'{a}, {b}', 'dp.items()', [a, f'{b}[0]', f'{b}[1]'])
+			elif f == 'assign-one':
+				lines.append(f'\t{a}, {b} = one')
+				decl(b)
+				decl(a)
+			elif f == 'comp-dp':
+				decl(f'[{b}[1] for {a}, {b} in dp.items()]')
+			elif f == 'index':
+				decl('ps[0][1]')
+				decl('lp[0][0]')
+				decl('pps[0][0][1]')
+			elif f == 'for-plain':
+				loop(f'{a}, {b}', 'qs', [a, b])       # the same tuples without an alias
+			self.count(f'alias:{f}')
+		head = (f'def {fn}(ps: list[{P}], qs: list[tuple[{t1}, {t2}]], ls: list[{L}], ds: list[{D}], dp: dict[str, {P}], pps: list[{PP}], lp: {LP}, one: {P}) -> None:')
+		out += ['', '', head] + lines
+		x1, x2 = rng.choice(lit[t1]), rng.choice(lit[t2])
+		y1, y2 = rng.choice(lit[t1]), rng.choice(lit[t2])
+		body = [f'\t{fn}([({x1}, {x2}), ({y1}, {y2})], [({y1}, {y2})], [[{x1}, {y1}]], [{{"k": {x2}}}], {{"a": ({x1}, {y2})}}, [(({x1}, {x2}), {y1})], [({y1}, {x2})], ({x1}, {y2}))']
+		return out, body
+
+	def classmethod_block(self) -> tuple[list[str], list[str]]:
+		"""A generic class with factory CLASSMETHODS whose return type mentions the class type variable (`-> 'Box[T]'`, `-> list[T]`,
+		`-> 'list[Box[T]]'`), called on the bare class (T comes from the argument: FunctionTrait.returns wraps the receiver as type<Class>,
+		traits.py:395-412) with arguments of different types, on a subscripted class (`Box[str].of("a")`) and through an instance; a
+		classmethod without type variables as control. The results are used (`.get()`, attribute reads, indexing).
+		Returns (definitions, body lines of the entry function)."""
+		rng = self.rng
+		out: list[str] = []
+		body: list[str] = []
+		cls = self.fresh('Box')
+		out += ['', '', f'class {cls}(Generic[T]):', '\tv: T', '', '\tdef __init__(self, v: T) -> None:', '\t\tself.v = v', '',
+			'\t@classmethod', f"\tdef of(cls, v: T) -> '{cls}[T]':", '\t\treturn cls(v)', '',
+			'\t@classmethod', f"\tdef many(cls, v: T, k: int) -> 'list[{cls}[T]]':", '\t\treturn [cls(v), cls(v)]', '',
+			'\t@classmethod', '\tdef twice(cls, v: T) -> list[T]:', '\t\treturn [v, v]', '',
+			'\t@classmethod', '\tdef label(cls) -> str:', "\t\treturn 'box'", '',
+			'\tdef get(self) -> T:', '\t\treturn self.v', '', f"\tdef again(self) -> '{cls}[T]':", f'\t\treturn {cls}(self.v)']
+
+		def decl(expr: str) -> str:
+			v = self.fresh('v')
+			body.append(f'\t{v} = {expr}')
+			return v
+		args = [('int', '3'), ('str', '"q"'), ('float', '1.5'), ('list[float]', '[1.5]'), ('int', 'a'), ('str', 's'), ('bool', 'p')]
+		for ty, e in rng.sample(args, rng.randint(2, 3)):
+			form = rng.choice(['of', 'of', 'many', 'twice', 'sub'])
+			if form == 'of':
+				o = decl(f'{cls}.of({e})')
+				decl(f'{o}.get()')
+				decl(rng.choice([f'{o}.v', f'{o}.again().get()', f'[{o}.get()]']))
+			elif form == 'many':
+				m = decl(f'{cls}.many({e}, 2)')
+				decl(f'{m}[0].get()')
+			elif form == 'twice':
+				w = decl(f'{cls}.twice({e})')
+				decl(f'{w}[0]')
+			elif form == 'sub' and '[' not in ty:
+				o = decl(f'{cls}[{ty}].of({e})')
+				decl(f'{o}.get()')
+			self.count(f'classmethod:{form}')
+		decl(f'{cls}.label()')
+		decl(f'{cls}(1).get()')
+		return out, body
+
 	def generic_deep_block(self) -> tuple[list[str], list[str]]:
 		"""A generic class over two type variables whose attributes mention them NESTED two or three levels deep (`dict[K, list[V]]`,
 		`list[list[V]]`, `list[tuple[K, V]]`, `dict[str, dict[K, V]]`, next to the flat `dict[K, V]` / `V`), instantiated two or three
@@ -530,8 +644,9 @@ class ProgGen:
 		out += ['', '', f'class {root}:', '\tv: int', '', '\tdef __init__(self, v: int) -> None:', '\t\tself.v = v']
 		for d in ops:
 			out += ['', f"\tdef {d}(self, other: '{root}') -> '{root}':", f'\t\treturn {root}(self.v + other.v)']
-		if rng.random() < 0.5:
-			d = rng.choice([x for x in ('__mul__', '__add__', '__mod__', '__lshift__') if x not in ops])
+		free = [x for x in ('__mul__', '__add__', '__mod__', '__lshift__') if x not in ops]
+		if free and rng.random() < 0.5:
+			d = rng.choice(free)
 			st, lit_ = rng.choice([('int', '2'), ('float', '1.5'), ('str', '"w"')])
 			scalar = (d, st, lit_)
 			out += ['', f"\tdef {d}(self, k: {st}) -> '{root}':", f'\t\treturn {root}(self.v + 1)',
@@ -635,6 +750,9 @@ class ProgGen:
 			imports.append('from enum import Enum')
 		if use_generic:
 			imports.append('from typing import Generic, TypeVar')
+		use_alias = rng.random() < 0.7 and not self.modelled
+		if use_alias:
+			imports.append('from typing import TypeAlias')
 		use_callbacks = rng.random() < 0.6
 		if use_callbacks:
 			imports.append('from collections.abc import Callable')
@@ -705,6 +823,10 @@ class ProgGen:
 				ddefs, dbody = self.generic_deep_block()
 				out += ddefs
 				generic_body += dbody
+			if rng.random() < 0.8:
+				kdefs, kbody = self.classmethod_block()
+				out += kdefs
+				generic_body += kbody
 		callback_body: list[str] = []
 		if use_callbacks:
 			cdefs, callback_body = self.callback_block()
@@ -715,6 +837,10 @@ class ProgGen:
 			mdefs, mbody = self.multi_inherit_block()
 			out += mdefs
 			nullable_body += mbody
+		if use_alias:
+			adefs, abody = self.alias_block()
+			out += adefs
+			nullable_body += abody
 		if rng.random() < 0.75 and not self.modelled:
 			odefs, obody = self.operator_block()
 			out += odefs
